@@ -125,11 +125,20 @@ def r4(ctx):
     d = P.body(PK + '::NtpPacket::deserialize')
     md = d.calls(r'Mac::deserialize$')
     ed = d.calls(r'ExtensionFieldData::deserialize$')
-    ctx.check('deserialize|segments', len(ed) == 2 and all(N(d.call_args(c)[1]) == 'header_size' for c in ed), 'extension-field parser calls %s' % [[N(a) for a in d.call_args(c)] for c in ed], sample=len(ed))
+    # name-free: the extension fields start where the header parser stopped (`.1` of its result); inside the packet-building closures the
+    # MAC is parsed from the closure's first argument, and every call of those closures passes `.remaining_bytes` of the extension-field result
+    HS = r'^\(Result::branch\(Result::map_err\(NtpHeaderV(3V4|5)::deserialize\(data\), .*\)\) as Continue\)\.0\.1$'
+    ctx.check('deserialize|segments', len(ed) == 2 and all(re.match(HS, S(d.call_args(c)[1])) for c in ed), 'extension-field parser calls %s' % [[S(a)[-60:] for a in d.call_args(c)] for c in ed], sample=len(ed))
     cl = [x for x in P.closures_of(d) if x.calls(r'Mac::deserialize$')]
-    args = [N(x.call_args(c)[0]) for x in cl for c in x.calls(r'Mac::deserialize$')] + [N(d.call_args(c)[0]) for c in md]
-    ctx.check('deserialize|mac-from-remaining', sorted(args) == sorted(['remaining_bytes', 'remaining_bytes', 'index::index(data, RangeFrom{start: header_size})']), 'MAC parsed from %s' % args, sample=args)
-
+    args = ['closure-arg-1' if root_local(x, c.data['args'][0]) == 2 else S(x.call_args(c)[0]) for x in cl for c in x.calls(r'Mac::deserialize$')]
+    for x in cl:
+        for c in d.calls(r'Fn::call$|FnMut::call_mut$|FnOnce::call_once$'):
+            a = [S(t) for t in d.call_args(c)]
+            if a[0].endswith(x.id.split('::', 1)[1]):
+                args.append('call:' + ('remaining' if re.match(r'^\(\(.*ExtensionFieldData::deserialize\(data, .*\)\.0\.remaining_bytes, ', a[1]) else a[1][:80]))
+    args += [re.sub(r'\(Result::branch.*\.0\.1', 'HEADER_SIZE', S(d.call_args(c)[0])) for c in md]
+    exp = ['closure-arg-1'] * 2 + ['call:remaining'] * 4 + ['index::index(data, RangeFrom{start: HEADER_SIZE})']
+    ctx.check('deserialize|mac-from-remaining', sorted(args) == sorted(exp), 'MAC parsed from %s' % args, sample=args)
 
 RULES = [r1, r2, r3, r4]
 FLOORS = {'C24-R1': 29, 'C24-R2': 30, 'C24-R3': 4, 'C24-R4': 12}
